@@ -148,7 +148,7 @@ func VerifC07Lifecycle(h *verifh.H) {
 		// the surviving dataset is unaffected
 		nowB := hs.vObserveDataset(h, "b")
 		h.Assert(nowB == obsB, "the other dataset's observable state is unaffected :: "+when+" before="+obsB+" after="+nowB)
-		h.Assert(vJoin([]string{wantB}) != "" , "model sanity")
+		h.Assert(vJoin([]string{wantB}) != "", "model sanity")
 		// the dataset under test: content reachable under its current name only
 		if cur != "" {
 			got := hs.vObserveDataset(h, cur)
@@ -203,6 +203,9 @@ func VerifC07CrashDelete(h *verifh.H) {
 		h.Assert(err == nil, "create b")
 		h.Assert(db.StoreEntities([]*Entity{mkEntity(bv)}) == nil, "write b")
 		h.Assert(da.StoreEntities([]*Entity{mkEntity(av)}) == nil, "write a")
+		if h.Param("commitPoints", 0) == 1 {
+			h.CrashAtCommits()
+		}
 		h.CrashWindowStart()
 		if rename {
 			_, err := hub.Dsm.UpdateDataset("a", &UpdateDatasetConfig{ID: "c"})
@@ -340,6 +343,7 @@ func VerifC07LateWriter(h *verifh.H) {
 	dsA := hs.dss["a"] // the handle the late writer holds
 	obsB := hs.vObserveDataset(h, "b")
 	var derr, gerr error
+	h.SymbolicTxns() // every Badger transaction start of /repo code is a scheduling point too
 	h.SymbolicSched(h.Param("preemptions", 2))
 	h.Go(func() { _ = dsA.StoreEntities([]*Entity{mkEntity(late)}) })
 	h.Go(func() {
